@@ -63,6 +63,15 @@ MUTANTS = [
     {"id": "c13-cols-sep-semicolon", "expect": "fire", "edits": [(P, '        return ",".join(c.to_fmt_str() for c in self.columns)', '        return ";".join(c.to_fmt_str() for c in self.columns)')]},
     {"id": "c13-n-cols-sep-blank", "expect": "silent", "edits": [(P, '        return ",".join(c.to_fmt_str() for c in self.columns)', '        return ", ".join(c.to_fmt_str() for c in self.columns)')],
      "note": "', ' vs ',': reader strips, so this one is actually harmless -> see expectation below"},
+    {"id": "c13-clone-keeps-skipped-flag", "expect": "fire", "edits": [(P, """        return PPTableFormat(
+            self.repr_structure.clone(), self.limit_flines, self.limit_llines)
+
+    def remove_columns""", """        result = PPTableFormat(
+            self.repr_structure.clone(), self.limit_flines, self.limit_llines)
+        result.any_lines_skipped = self.any_lines_skipped
+        return result
+
+    def remove_columns""")]},
     # neutral
     {"id": "c13-n-one-fstring", "expect": "silent", "edits": [(P, """        if self.min_width == self.max_width:
             fmt_str += f":{self.min_width}"
